@@ -252,8 +252,9 @@ func (c *CheckCtx) modelCheckConc(progs map[string][]string, calls []concCall, o
 func concGenModule(name, extends string, progs map[string][]string, calls []concCall, order []int) string {
 	var b strings.Builder
 	fmt.Fprintf(&b, "---- MODULE %s ----\nEXTENDS %s\n", name, extends)
-	var gs, tests, vals, upds []string
+	var gs, tests, vals, upds, nocr []string
 	for _, cc := range calls {
+		nocr = append(nocr, fmt.Sprintf("%s :> %s", strconv.Quote(cc.G), map[bool]string{true: "TRUE", false: "FALSE"}[cc.Kind == "mismatch"]))
 		gs = append(gs, strconv.Quote(cc.G))
 		tests = append(tests, fmt.Sprintf("%s :> %s", strconv.Quote(cc.G), strconv.Quote(cc.Test)))
 		vals = append(vals, fmt.Sprintf("%s :> %s", strconv.Quote(cc.G), tlaSeq(strings.Split(cc.Value, "\n"))))
@@ -264,7 +265,7 @@ func concGenModule(name, extends string, progs map[string][]string, calls []conc
 		ls, _ := splitFile(f.Content)
 		initLines = ls
 	}
-	fmt.Fprintf(&b, "mcGs == {%s}\nmcTestOf == %s\nmcValOf == %s\nmcUpdOf == %s\n", strings.Join(gs, ", "), strings.Join(tests, " @@ "), strings.Join(vals, " @@ "), strings.Join(upds, " @@ "))
+	fmt.Fprintf(&b, "mcGs == {%s}\nmcTestOf == %s\nmcValOf == %s\nmcUpdOf == %s\nmcNoCreate == %s\n", strings.Join(gs, ", "), strings.Join(tests, " @@ "), strings.Join(vals, " @@ "), strings.Join(upds, " @@ "), strings.Join(nocr, " @@ "))
 	fmt.Fprintf(&b, "mcInit == [lines |-> %s, nl |-> %s]\n", tlaSeq(initLines), map[bool]string{true: "TRUE", false: "FALSE"}[len(initLines) > 0])
 	var pk []string
 	for _, k := range concKinds {
@@ -274,7 +275,7 @@ func concGenModule(name, extends string, progs map[string][]string, calls []conc
 	return b.String()
 }
 
-const concConstants = "CONSTANTS\n  Gs <- mcGs\n  TestOf <- mcTestOf\n  ValOf <- mcValOf\n  UpdOf <- mcUpdOf\n  InitFile <- mcInit\n  Prog <- mcProg\n  PrefixLen <- mcPrefix\n"
+const concConstants = "CONSTANTS\n  Gs <- mcGs\n  TestOf <- mcTestOf\n  ValOf <- mcValOf\n  UpdOf <- mcUpdOf\n  NoCreate <- mcNoCreate\n  InitFile <- mcInit\n  Prog <- mcProg\n  PrefixLen <- mcPrefix\n"
 
 // validateConcLogs: the primitive logs of real gated executions of ONE configuration must be
 // behaviours of GoSnapsConc with the extracted programs (TraceConc.tla). Disagreement = MODEL-DRIFT.
